@@ -125,3 +125,26 @@ def obj_dec(x):
 
 
 angle_kind = st.sampled_from(ANGLE_KINDS + ["float"] * 4)
+
+# how a real number is handed to the library: users pass Python ints (whole metres / degrees) and numpy float64 scalars as
+# readily as floats; the result must be the one for float(x).  (numpy float32 scalars are NOT generated: under NumPy 2
+# promotion rules float32 + Python float stays float32, so single-precision inputs give single-precision results; the
+# library documents "float" arguments and that loss is the caller's choice, not a violation.)
+num_kind = st.sampled_from(["float"] * 6 + ["int", "int", "np64"])
+
+
+def as_kind(x, kind):
+    """x in the given representation; ints and float32 are used only when they hold x exactly (else x itself)."""
+    import numpy as np
+    if kind == "int" and float(x).is_integer() and abs(x) < 2 ** 53:
+        return int(x)
+    if kind == "np64":
+        return np.float64(x)
+    if kind == "np32" and float(np.float32(x)) == float(x):
+        return np.float32(x)
+    return x
+
+
+def whole_sometimes(strategy):
+    """Mix in whole-number values (so that the int / float32 representations above actually occur)."""
+    return st.one_of(strategy, strategy, strategy.map(lambda v: float(round(v))))
